@@ -140,6 +140,11 @@ fn gen_rules(r: &mut Rng, host: &str, t1: &str) -> Vec<String> {
             rules.push(format!("@@{}$redirect={}", r.pick(&frags[..]), m));
         }
     }
+    // a $badfilter twin cancels its rule in every list it lives in, the redirect list included
+    if r.chance(1, 6) {
+        let victim = r.pick(&rules).clone();
+        rules.push(format!("{},badfilter", victim));
+    }
     // plain blocking / exception noise so that blocked-ness varies independently
     match r.below(4) {
         0 => rules.push(format!("||{}^", host)),
@@ -170,7 +175,25 @@ pub fn run(ctx: &mut Ctx) {
             let store = gen_store(&mut r);
             let optimize = r.chance(1, 2);
             let opts = ParseOptions::default();
-            let e = build_engine_with(&rules, opts, true, optimize, &store);
+            // one engine in four receives its last resource late, after the requests have been
+            // asked once without it (answers must follow the store, not the history of lookups)
+            let late = r.chance(1, 4) && !store.is_empty();
+            let mut e = build_engine_with(&rules, opts, true, optimize, if late { &store[..store.len() - 1] } else { &store[..] });
+            if late {
+                for k in 0..3 {
+                    let url = match k {
+                        0 => format!("https://{}/{}/x.js", host, t1),
+                        1 => format!("https://{}/{}/y.js?q=1", host, t1),
+                        _ => format!("https://sub.{}/other/{}/x.js", host, t1),
+                    };
+                    for ty in ["script", "image", "xhr"] {
+                        if let Ok(rq) = Request::new(&url, &format!("https://{}/", host), ty) {
+                            let _ = e.check_network_request(&rq);
+                        }
+                    }
+                }
+                let _ = e.add_resource(store[store.len() - 1].to_resource());
+            }
             // the same rules added one at a time to a live Blocker (duplicates are refused there,
             // which changes nothing for the verdict)
             let mut blocker = Blocker::new(vec![], &BlockerOptions { enable_optimizations: false });
@@ -224,7 +247,8 @@ pub fn run(ctx: &mut Ctx) {
                     }
                     out.push(("redirect-depends-on-subset-flags".to_string(), nt, h, det, true));
                 }
-                if !d2.is_empty() && d.is_empty() {
+                // (add_filter refuses $badfilter rules, so the incremental twin is only judged without them)
+                if !d2.is_empty() && d.is_empty() && !rules.iter().any(|l| l.contains("badfilter")) {
                     let mut det = detail.clone();
                     if let Some(o) = det.as_object_mut() {
                         o.insert("blocker_built_by_add_filter".into(), a2.to_json());
